@@ -167,6 +167,19 @@ def factory(kind, spec):
     return coll, ops
 
 
+def _collect(o, into):
+    """the object becomes a member of a new aggregate built WITHOUT a parent argument; answers with the aggregate's span
+    and member identifiers"""
+    from inscripta.biocantor.gene.collections import AnnotationCollection
+    from inscripta.biocantor.gene.gene import GeneInterval
+
+    g = GeneInterval([o]) if type(o).__name__ == "TranscriptInterval" else o
+    if into == "gene":
+        return [g.start, g.end, sorted(str(x) for x in g.children_guids)]
+    c = AnnotationCollection(genes=[g])
+    return [c.start, c.end, sorted(str(x) for x in c.children_guids)]
+
+
 def actions(kind):
     """name -> callable(obj, ops).  Names are the alphabet of History.tla."""
     from inscripta.biocantor.gene.codon import TranslationTable
@@ -292,6 +305,8 @@ def actions(kind):
             "intersect_location": lambda o, p: o.intersect(o.chromosome_location.blocks[0].reset_parent(None)),
             "liftover_to_chunk": lambda o, p: o.liftover_to_parent_or_seq_chunk_parent(p["chunk2"]),
             "incorporate_variant": lambda o, p: o.incorporate_variants(p["variant"]),
+            "collect_into_gene": lambda o, p: _collect(o, "gene"),
+            "collect_into_collection": lambda o, p: _collect(o, "collection"),
         }
     elif kind == "gene":
         A = {
@@ -307,6 +322,7 @@ def actions(kind):
             "query_by_guids": lambda o, p: o.query_by_guids([o.transcripts[0].guid]),
             "liftover_to_chunk": lambda o, p: o.liftover_to_parent_or_seq_chunk_parent(p["chunk2"]),
             "incorporate_variant": lambda o, p: o.incorporate_variants(p["variant"]),
+            "collect_into_collection": lambda o, p: _collect(o, "collection"),
         }
     else:
         A = {
